@@ -93,7 +93,7 @@ func vpH_C06_loop() {
 	minor := vpU8() & 1
 	in := vpHeaderBytes(minor, typ, seq, flags, sid, 0)
 	conn := newVPConn(in)
-	s := &Server{loggerProvider: &vpLogger{}}
+	s := NewServer(&vpLogger{}, nil)
 	s.handle(newVPCtx(), newCrypter([]byte("k"), conn, false), HandlerFunc(func(resp Response, req Request) {
 		resp.Reply(NewAcctReply(SetAcctReplyStatus(AcctReplyStatusSuccess)))
 	}))
